@@ -138,6 +138,10 @@ def tdlike(v):
 
 # ----------------------------------------------------------------------------- case streams
 def rand_mag(rnd, hi=B31):
+    return min(_rand_mag(rnd, hi), max(0, hi - 1))
+
+
+def _rand_mag(rnd, hi):
     r = rnd.random()
     if r < 0.15:
         return rnd.choice([0, 1, 2, 3, 499999, 500000, 500001, 999999, US, US + 1, 60 * US, 3600 * US, DAY_US - 1, DAY_US, DAY_US + 1, 7 * DAY_US])
@@ -172,6 +176,9 @@ def rand_tdlike(rnd, n=None, kinds=("dur", "dur", "td", "ivl")):
     return v_ivl(n)
 
 
+PEND = ("dur", "dur", "ivl")
+
+
 def cases(tier, seed):
     rnd = random.Random(seed * 6151 + 10)
     scale = 1 if tier == "quick" else 8
@@ -180,6 +187,8 @@ def cases(tier, seed):
     def binop(stream, op, l, r):
         if l[0] in ("dur", "ivl") and r[0] == "ivl":
             return          # an Interval on the right of a Duration: the subclass's own reflected methods, not part of the model
+        if not ({l[0], r[0]} & {"dur", "ivl"}):
+            return          # no pendulum object involved
         if op in CMP and "ivl" in (l[0], r[0]):
             return          # Interval overrides __eq__/__hash__ (start, end, absolute): outside the statement
         out.append({"stream": stream, "fn": "binop", "args": [op, l, r]})
@@ -210,7 +219,7 @@ def cases(tier, seed):
     # 2. random pairs: Duration-like x (Duration | timedelta | int | float), both orders
     for _ in range(2500 * scale):
         op = rnd.choice(ARITH)
-        l = rand_tdlike(rnd)
+        l = rand_tdlike(rnd, kinds=PEND)
         rk = rnd.choice(["dur", "td", "int", "float"])
         if rk in ("dur", "td"):
             n = rand_n(rnd)
@@ -223,9 +232,9 @@ def cases(tier, seed):
             r = v_float(rand_float_operand(rnd))
         if op == "mul" and r[0] == "int":          # keep |k * N| inside the exact domain for this stream
             n = rand_n(rnd, hi=max(2, B31 // max(1, abs(r[1]))))
-            l = rand_tdlike(rnd, n)
+            l = rand_tdlike(rnd, n, kinds=PEND)
         if op in ("add", "sub") and r[0] in ("dur", "td"):
-            l = rand_tdlike(rnd, rand_n(rnd, hi=B31 // 2))
+            l = rand_tdlike(rnd, rand_n(rnd, hi=B31 // 2), kinds=PEND)
             r = (v_dur if r[0] == "dur" else lambda n, rnd=None: v_td(n))(rand_n(rnd, hi=B31 // 2), rnd=rnd)
         binop("pairs-" + op, op, l, r)
         if rnd.random() < 0.5:
@@ -235,7 +244,7 @@ def cases(tier, seed):
     for _ in range(500 * scale):
         a, b = rnd.choice([1, -1]) * rnd.choice(small + [rnd.randrange(1, 10 ** 9)]), rnd.choice([1, -1]) * rnd.choice(small)
         op = rnd.choice(DIVOPS)
-        l = rand_tdlike(rnd, a)
+        l = rand_tdlike(rnd, a, kinds=PEND)
         binop("signs-" + op, op, l, rnd.choice([v_dur(b, rnd=rnd), v_td(b), v_int(b) if op in ("floordiv", "truediv") else v_dur(b)]))
         binop("signs-reflected-" + op, op, v_td(a), rand_tdlike(rnd, b, kinds=("dur", "ivl")))
     # 4. ties of round-half-even
@@ -243,13 +252,13 @@ def cases(tier, seed):
         b = rnd.choice([1, -1]) * 2 * rnd.randrange(1, 10 ** rnd.randrange(1, 6))
         k = rnd.randint(-10 ** 6, 10 ** 6)
         usec = (2 * k + 1) * (b // 2) + rnd.choice([0, 0, 0, 1, -1])
-        binop("ties-truediv-int", "truediv", rand_tdlike(rnd, usec), v_int(b))
+        binop("ties-truediv-int", "truediv", rand_tdlike(rnd, usec, kinds=PEND), v_int(b))
         # * float with an exact x.5 product:  usec odd, factor j + 0.5  /  factor 2^-p
         u = 2 * rnd.randint(-10 ** 9, 10 ** 9) + 1
         f = rnd.choice([0.5, 1.5, 2.5, -0.5, -1.5, 3.5, 0.25, 0.125, rnd.randrange(1, 1000) + 0.5])
-        binop("ties-mul-float", "mul", rand_tdlike(rnd, u), v_float(f))
+        binop("ties-mul-float", "mul", rand_tdlike(rnd, u, kinds=PEND), v_float(f))
         binop("ties-mul-float", "mul", v_float(f), rand_tdlike(rnd, u, kinds=("dur", "ivl")))
-        binop("ties-truediv-float", "truediv", rand_tdlike(rnd, u * rnd.choice([1, 3, 5])), v_float(rnd.choice([2.0, -2.0, 4.0, 8.0, 0.4, 6.0, 10.0])))
+        binop("ties-truediv-float", "truediv", rand_tdlike(rnd, u * rnd.choice([1, 3, 5]), kinds=PEND), v_float(rnd.choice([2.0, -2.0, 4.0, 8.0, 0.4, 6.0, 10.0])))
     # 5. zero divisors: the native operation raises ZeroDivisionError, so must the Duration
     for op in DIVOPS:
         for l in (v_dur(5 * US), v_ivl(5 * US), v_dur(0)):
@@ -289,10 +298,10 @@ def cases(tier, seed):
         a = rnd.choice([1, -1]) * rnd.randrange(B31, B33)
         b = rnd.choice([1, -1]) * rnd.randrange(0, B33)
         op = rnd.choice(["add", "sub"])
-        binop("band-addsub", op, rand_tdlike(rnd, a), rand_tdlike(rnd, b, kinds=("dur", "td")))
+        binop("band-addsub", op, rand_tdlike(rnd, a, kinds=PEND), rand_tdlike(rnd, b, kinds=("dur", "td")))
         binop("band-addsub", op, v_td(b), rand_tdlike(rnd, a, kinds=("dur",)))
         k = rnd.choice([1, -1]) * rnd.randrange(1, rnd.choice([3, 10, 1000, 10 ** 6]))
-        binop("band-mul-int", "mul", rand_tdlike(rnd, rnd.choice([1, -1]) * rnd.randrange(B31, B33) // abs(k)), v_int(k))
+        binop("band-mul-int", "mul", rand_tdlike(rnd, rnd.choice([1, -1]) * rnd.randrange(B31, B33) // abs(k), kinds=PEND), v_int(k))
     for _ in range(80 * scale):
         a = rnd.choice([1, -1]) * rnd.randrange(B33, TD_MAX * DAY_US // 2)
         op = rnd.choice(ARITH)
@@ -647,7 +656,7 @@ def known(c, backend, r):
     floaty = (c["fn"] == "binop" and (op in ("add", "sub") or (op == "mul" and any(v[0] == "int" for v in vals)))) or any(v[0] == "ivl" for v in vals)
     if floaty and big >= B31 and abs(w[1]) <= 64:
         return "float-total-resolution"
-    if big >= B33 and (abs(w[1]) <= 64 or op in DIVOPS):
+    if big >= B33 and (abs(w[1]) <= (big >> 49) or op in DIVOPS):        # a few float ulps of the largest length involved
         return "float-total-resolution"
     return None
 
